@@ -112,6 +112,7 @@ ob("c02::canary_new_add_lo_zero", "C02", cls="canary", timeout=300, expect="refu
 ob("c02::from_f64_exact", "C02", cls="leaf", timeout=120, functions=["TwoFloat::from_f64", "From<f64> for TwoFloat"])
 ob("c02::new_mul_hi", ["C02", "C04"], cls="leaf", timeout=300, functions=["TwoFloat::new_mul"], backend="cbmc+cvc5")
 ob("c02::new_mul_is_two_prod", ["C02", "C04"], cls="miter", timeout=300, functions=["TwoFloat::new_mul"], backend="cbmc+cvc5", share=True)
+ob("c02::new_mul_exact_full", ["C02", "C04"], cls="leaf", timeout=1800, functions=["TwoFloat::new_mul"], share=True)
 ob("c02::new_mul_exact_b31", ["C02", "C04"], tier="thorough", cls="bounded", timeout=1800, functions=["TwoFloat::new_mul"],
    bound={"significand_bits": 31, "exponents": "within 100 binades of 1"})
 ob("c02::new_mul_exact_b53", ["C02", "C04"], tier="thorough", cls="bounded", timeout=3600, functions=["TwoFloat::new_mul"],
